@@ -9,9 +9,9 @@ git -C /repo worktree add --detach $wt HEAD >/dev/null 2>&1 || exit 2
 cd $wt
 git apply $out/patch.diff || { echo "PATCH DOES NOT APPLY"; exit 2; }
 if go build ./... 2>&1 | tail -3 | grep -q .; then echo "BUILD FAILED"; else echo "build: ok"; fi
-r=1; for i in 1 2 3; do if go test -p 1 -count=1 ${SKIP:+-skip "$SKIP"} ./$pkg/ >/tmp/confirm-$name.pkg.log 2>&1; then r=0; break; fi; done
+r=1; for i in 1 2 3; do if go test -p 1 -count=1 ${SKIP:+-skip "$SKIP"} ./${PKGTEST:-$pkg}/ >/tmp/confirm-$name.pkg.log 2>&1; then r=0; break; fi; done
 echo "package tests with change: $( [ $r = 0 ] && echo pass || (echo FAIL; tail -5 /tmp/confirm-$name.pkg.log) )"
-cp $out/$demo $pkg/
+mkdir -p $pkg; cp $out/$demo $pkg/
 if go test -p 1 -count=1 -run "$rx" ./$pkg/ >/tmp/confirm-$name.demo1.log 2>&1; then echo "demo with change: PASSES (unexpected)"; else echo "demo with change: fails (expected)"; fi
 git apply -R $out/patch.diff
 r=1; for i in 1 2 3; do if go test -p 1 -count=1 -run "$rx" ./$pkg/ >/tmp/confirm-$name.demo2.log 2>&1; then r=0; break; fi; done
